@@ -4,6 +4,7 @@
      KNOWN prop=<id> finding=<id> case=<case> cmd=<n> what=<text>   a violation inside a known-finding class *)
 open Model
 open Driver
+type string = Stdlib.String.t
 
 let violations = ref 0
 let knowns = ref 0
